@@ -45,7 +45,9 @@ pub fn intersect_triangle(
     let h = ray.direction.cross(edge2);
     let a = edge1 * h;
     const TINY: Float = 100. * Float::EPSILON;
-    if a > -TINY && a < TINY {
+    // the determinant is compared with its own scale: for a ray (nearly) parallel to the
+    // triangle it is nothing but rounding noise, whatever the size of the triangle
+    if a.abs() <= TINY * edge1.length() * h.length() {
         return None;
     }
     let f = 1. / a;
